@@ -620,6 +620,8 @@ class Subscription(BaseSubscription):
                     pstr.append(f"'{val}'")
                 if pstr:
                     pstr = ",".join(pstr)
+                    # the tag name is client data too
+                    tagname = tagname.replace("'", "''")
                     subwhere.append(
                         f"id IN (SELECT id FROM tags WHERE name = '{tagname}' AND value IN ({pstr})) "
                     )
